@@ -24,7 +24,7 @@ BUILD = "/tmp/selftest_build_%d" % os.getpid()
 os.environ["VERIF_BUILD"] = BUILD
 
 
-def run_in_worktree(patch, props):
+def run_in_worktree(patch, props, seeds=(None,)):
     wt = "/tmp/selftest_wt_%d" % os.getpid()
     subprocess.run(["git", "-C", "/repo", "worktree", "add", "--detach", wt, "HEAD", "-q"], check=True)
     out = []
@@ -34,9 +34,10 @@ def run_in_worktree(patch, props):
             return None, "patch does not apply: " + p.stderr.strip()[:200]
         env = dict(os.environ, VERIF_REPO=wt)
         for prop in props:
-            c = subprocess.run([os.path.join(VERIF, "check"), prop, "--no-evidence"], env=env, capture_output=True, text=True, timeout=3600)
-            keys = re.findall(r"key=(\S+)", c.stdout)
-            out.append((prop, c.returncode, keys[:3]))
+            for sd in seeds:
+                c = subprocess.run([os.path.join(VERIF, "check"), prop, "--no-evidence"] + (["--seed", str(sd)] if sd is not None else []), env=env, capture_output=True, text=True, timeout=3600)
+                keys = re.findall(r"key=(\S+)", c.stdout)
+                out.append((prop, c.returncode, keys[:3]))
     finally:
         subprocess.run(["git", "-C", "/repo", "worktree", "remove", "--force", wt])
     return out, ""
@@ -47,6 +48,7 @@ def main():
     ap.add_argument("--only", default="")
     ap.add_argument("--props", default="")
     ap.add_argument("--skip-determinism", action="store_true")
+    ap.add_argument("--seeds", default="", help="seeded changes only: run each with these batch seeds (comma separated) and report how many catch it (detection margin)")
     a = ap.parse_args()
     sel = set(a.props.split(",")) if a.props else None
     bad = 0
@@ -68,6 +70,19 @@ def main():
             patch = os.path.join(d, "patch_rebased.diff")
             if not os.path.exists(patch):
                 patch = os.path.join(d, "patch.diff")
+            if a.seeds:
+                # detection margin: how many of the given batch seeds catch the change
+                cprop = prop
+                cb = meta.get("caught_by", "")
+                if cb and not cb.startswith("NOT CAUGHT") and prop not in cb.split(" quick")[0]:
+                    cprop = cb.split(" quick")[0].split()[-1]
+                res, err = run_in_worktree(patch, [cprop], [int(x) for x in a.seeds.split(",")])
+                if res is None:
+                    print("margin %s: NOT EVALUATED (%s)" % (meta["id"], err)); continue
+                n = sum(1 for _, rc, keys in res if rc == 1 and keys)
+                h = sum(1 for _, rc, keys in res if rc == 2)
+                print("margin %s (%s): caught by %d of %d seeds%s" % (meta["id"], cprop, n, len(res), " HARNESS-ERRORS=%d" % h if h else ""), flush=True)
+                continue
             res, err = run_in_worktree(patch, [prop])
             if res is None:
                 print("seeded %s: NOT EVALUATED (%s)" % (meta["id"], err)); bad += 1; continue
